@@ -203,8 +203,8 @@ pub fn whiten_cases(_tier: Tier) -> impl Strategy<Value = WhitenCase> {
             let n = rx.len();
             let p = p_raw.min(n.saturating_sub(2)).max(1);
             let s = MANTISSAS[mant as usize % 4] * 10f64.powi(centred(exp));
-            // log10 of the largest spread ratio: f64 up to 2 (covariance condition 1e4), f32 up to 0.5
-            let rmax = if f32_ { 0.125 * r as f64 } else { 0.5 * r as f64 };
+            // log10 of the largest spread ratio: f64 up to 2 (covariance condition 1e4), f32 up to 0.3
+            let rmax = if f32_ { 0.075 * r as f64 } else { 0.5 * r as f64 };
             let d: Vec<f64> = (0..p).map(|k| 10f64.powf(-rmax * spreads[k] as f64 / 10.0)).collect();
             // rotation
             let mut rot = vec![vec![0.0; p]; p];
